@@ -7,6 +7,7 @@ import (
 	"errors"
 	"fmt"
 	"math/big"
+	"math/bits"
 	"strconv"
 	"strings"
 	"sync"
@@ -27,13 +28,15 @@ type kind struct {
 type (
 	dU8  uint8
 	dI8  int8
+	dU16 uint16
+	dI16 int16
 	dU32 uint32
 	dI32 int32
 	dU64 uint64
 	dI64 int64
 )
 
-var definedKinds = []kind{{"du8", false, 8}, {"di8", true, 8}, {"du32", false, 32}, {"di32", true, 32}, {"du64", false, 64}, {"di64", true, 64}}
+var definedKinds = []kind{{"du8", false, 8}, {"di8", true, 8}, {"du16", false, 16}, {"di16", true, 16}, {"du32", false, 32}, {"di32", true, 32}, {"du64", false, 64}, {"di64", true, 64}}
 
 var kinds = []kind{{"u8", false, 8}, {"i8", true, 8}, {"u16", false, 16}, {"i16", true, 16}, {"u32", false, 32}, {"i32", true, 32}, {"u64", false, 64}, {"i64", true, 64}}
 
@@ -56,12 +59,17 @@ func (k kind) max() *big.Int {
 func (k kind) inRange(z *big.Int) bool { return z.Cmp(k.min()) >= 0 && z.Cmp(k.max()) <= 0 }
 
 func res[T safemath.Integer](v T, err error) string {
+	// the identity of the error is observed through errors.Is against BOTH sentinels: an error that matches both
+	// (one sentinel wrapping the other, a joined error) is neither "the overflow error" nor "the division-by-zero error"
+	ov, dz := errors.Is(err, safemath.ErrIntegerOverflow), errors.Is(err, safemath.ErrIntegerDivisionByZero)
 	switch {
 	case err == nil:
 		return fmt.Sprintf("ok %d", v)
-	case errors.Is(err, safemath.ErrIntegerOverflow):
+	case ov && dz:
+		return "err-both"
+	case ov:
 		return "overflow"
-	case errors.Is(err, safemath.ErrIntegerDivisionByZero):
+	case dz:
 		return "divzero"
 	}
 
@@ -136,14 +144,16 @@ func raw[T safemath.Integer](op string, x, y *big.Int) (out string) {
 	return "bad-op"
 }
 
-func dispatch(f string, k string, op string, x, y *big.Int) string {
-	type fn func(string, *big.Int, *big.Int) string
-	table := map[string][2]fn{
+type opFn func(string, *big.Int, *big.Int) string
+
+var table = map[string][2]opFn{
 		"u8": {safe[uint8], raw[uint8]}, "i8": {safe[int8], raw[int8]}, "u16": {safe[uint16], raw[uint16]}, "i16": {safe[int16], raw[int16]},
 		"u32": {safe[uint32], raw[uint32]}, "i32": {safe[int32], raw[int32]}, "u64": {safe[uint64], raw[uint64]}, "i64": {safe[int64], raw[int64]},
-		"du8": {safe[dU8], raw[dU8]}, "di8": {safe[dI8], raw[dI8]}, "du32": {safe[dU32], raw[dU32]}, "di32": {safe[dI32], raw[dI32]},
-		"du64": {safe[dU64], raw[dU64]}, "di64": {safe[dI64], raw[dI64]},
-	}
+		"du8": {safe[dU8], raw[dU8]}, "di8": {safe[dI8], raw[dI8]}, "du16": {safe[dU16], raw[dU16]}, "di16": {safe[dI16], raw[dI16]}, "du32": {safe[dU32], raw[dU32]}, "di32": {safe[dI32], raw[dI32]},
+	"du64": {safe[dU64], raw[dU64]}, "di64": {safe[dI64], raw[dI64]},
+}
+
+func dispatch(f string, k string, op string, x, y *big.Int) string {
 	e, ok := table[k]
 	if !ok {
 		return "bad-op"
@@ -220,6 +230,23 @@ func exec(r *hx.Run, line string) string {
 		return got
 	case "raw":
 		return dispatch("raw", f[2], f[1], parseBig(f[3]), parseBig(f[4]))
+	case "raw64": // raw64 mul X Y | raw64 div HI LO Y: math/bits itself (validates mul64 / div64 of GoInt.lean)
+		if f[1] == "mul" && len(f) == 4 {
+			hi, lo := bits.Mul64(parseBig(f[2]).Uint64(), parseBig(f[3]).Uint64())
+
+			return fmt.Sprintf("%d %d", hi, lo)
+		}
+		if f[1] == "div" && len(f) == 5 {
+			out := "panic"
+			hx.Safely(func() {
+				q, rem := bits.Div64(parseBig(f[2]).Uint64(), parseBig(f[3]).Uint64(), parseBig(f[4]).Uint64())
+				out = fmt.Sprintf("%d %d", q, rem)
+			})
+
+			return out
+		}
+
+		return "bad-op"
 	case "mulu64":
 		x, y := parseBig(f[1]), parseBig(f[2])
 		got := res(safemath.SafeMulUint64(x.Uint64(), y.Uint64()))
@@ -268,8 +295,23 @@ func emit(r *hx.Run, line string) {
 	ans := exec(r, line)
 	r.Line(line, ans)
 	f := strings.Fields(line)
-	r.Count("req:" + f[0] + ":" + f[1])
-	r.Count("ans:" + strings.Fields(ans)[0])
+	if f[0] == "safe" || f[0] == "raw" || f[0] == "raw64" {
+		r.Count("req:" + f[0] + ":" + f[1])
+		if f[0] != "raw64" {
+			r.Count("type:" + f[2])
+		}
+	} else {
+		r.Count("req:" + f[0])
+	}
+	if f[0] == "raw" || f[0] == "raw64" {
+		if ans == "panic" {
+			r.Count("ans:raw-panic")
+		} else {
+			r.Count("ans:raw-value")
+		}
+	} else {
+		r.Count("ans:" + strings.Fields(ans)[0])
+	}
 	if strings.HasPrefix(ans, "ok") || ans == "overflow" {
 		r.Nontrivial(line)
 	}
@@ -423,7 +465,21 @@ func main() {
 		"safe shl u8 1 8", "safe shl u8 0 200", "muli64 -9223372036854775808 -1", "muli64 -9223372036854775808 1", "muli64 3037000500 3037000500",
 		"muldiv 18446744073709551615 18446744073709551615 18446744073709551615", "muldiv 1 1 0", "mulu64 4294967296 4294967296",
 		"safe mul du64 18446744073709551615 2", "safe mul di64 -9223372036854775808 -1", "safe mul i64 3037000500 3037000500", "safe div u8 128 255",
-		"safe div u64 9223372036854775808 18446744073709551615", "safe add du8 255 1", "safe shl di8 64 1"} {
+		"safe div u64 9223372036854775808 18446744073709551615", "safe add du8 255 1", "safe shl di8 64 1",
+		// minimised failing inputs of earlier rounds of seeded changes
+		"muldiv 4294967296 4294967296 1", "muldiv 9223372036854775808 6 3", "muldiv 2 9223372036854775808 0", "safe shl u8 1 64", "safe shl i64 1 65",
+		"safe shl i8 -1 64", "muli64 1 -9223372036854775808", "safe sub i8 -1 -128", "safe sub i64 -9223372036854775808 -9223372036854775808",
+		"safe shl u64 1 63", "safe shl du64 3 62", "safe mul i8 -1 -128", "safe mul i64 -1 -9223372036854775808", "safe shl u8 0 8", "safe shl i64 0 255",
+		"safe mul du64 4294967296 4294967296", "safe div u16 32768 65535", "safe div du16 32768 65535", "safe mul di16 -1 -32768",
+		"raw64 mul 18446744073709551615 18446744073709551615", "raw64 div 1 0 1", "raw64 div 0 5 0", "raw64 div 1 0 2", "raw64 div 18446744073709551614 1 18446744073709551615"} {
+		emit(r, l)
+	}
+	// systematic boundary grid against math/big (oracle only); failing inputs are re-run as request lines
+	gridLines, gridEvals, gridHits := gridAll()
+	r.Extra["grid_oracle_only_evaluations"] = gridEvals
+	r.Extra["grid_failing_inputs"] = gridHits
+	r.Case(1)
+	for _, l := range gridLines {
 		emit(r, l)
 	}
 	// exhaustive 8-bit
@@ -498,6 +554,11 @@ func main() {
 					d = clamp(k, hi.Add(hi, big.NewInt(int64(r.Rng.Range(-1, 2)))))
 				}
 				emit(r, "muldiv "+xs+" "+ys+" "+d.String())
+				emit(r, "raw64 mul "+xs+" "+ys)
+				p := new(big.Int).Mul(x, y)
+				hiW, loW := new(big.Int).Rsh(p, 64), new(big.Int).And(p, kindOf("u64").max())
+				emit(r, "raw64 div "+hiW.String()+" "+loW.String()+" "+d.String())
+				emit(r, "raw64 div "+operand(r.Rng, k).String()+" "+operand(r.Rng, k).String()+" "+operand(r.Rng, k).String())
 			}
 			if k.name == "i64" {
 				emit(r, "muli64 "+xs+" "+ys)
